@@ -27,7 +27,7 @@ namespace Vy.Sem
 open Vy PyAst
 
 /-- the fragment of stage 2 -/
-def Frag2 (tbl : List Gen.Entry) (prog : List Structure) : Prop := frag2L tbl prog = true
+def Frag2 (tbl : List Gen.Entry) (prog : List Structure) : Prop := fragL tbl prog = true
 
 instance (tbl : List Gen.Entry) (prog : List Structure) : Decidable (Frag2 tbl prog) := by unfold Frag2; infer_instance
 
